@@ -421,6 +421,90 @@ func clientWireFlushRace(name string, plan [][]int, bound int) *vx.Scenario {
 	return sc
 }
 
+// spreadSlice: the arguments are handed over as a spread slice that has spare capacity (built with append, as
+// argument lists usually are), and the same slice is emitted twice: emitting does not change what it was given,
+// so the slice is intact afterwards and both emissions put the same frames on the wire. Client (real polling POST
+// bodies) and server (frames to the protocol-level client).
+func spreadSlice(name string, server bool) *vx.Scenario {
+	sc := &vx.Scenario{Name: name, Bound: 0, Horizon: 10 * time.Second}
+	sc.Body = func(e *vsched.Exec) func() vx.Result {
+		args := make([]any, 0, 8)
+		args = append(args, 1, "x", map[string]any{"k": 2})
+		before := fmt.Sprintf("%#v", args)
+		var frames func() []string
+		if server {
+			srv := sio.NewServer(nil)
+			var sock sio.ServerSocket
+			var v vsched.Var
+			srv.OnConnection(func(s sio.ServerSocket) { v.Do(func() { sock = s }) })
+			f := vrig.NewFakeEIO(srv, "c02")
+			f.ConnectNS("/")
+			vsched.Await(func() bool { return sock != nil })
+			sock.Emit("e", args...)
+			sock.Emit("e", args...)
+			sock.Timeout(time.Minute).Emit("e", append(args[:len(args):len(args)], func(error) {})...)
+			vrig.Settle(time.Second)
+			frames = func() []string {
+				var out []string
+				for _, t := range f.Texts() {
+					if strings.HasPrefix(t, "2") {
+						out = append(out, t)
+					}
+				}
+				return out
+			}
+		} else {
+			srv, mgr, link := vrig.NewSioPair(nil, nil)
+			srv.OnConnection(func(s sio.ServerSocket) {})
+			sock := mgr.Socket("/", nil)
+			up := false
+			var v vsched.Var
+			sock.OnConnect(func() { v.Do(func() { up = true }) })
+			sock.Connect()
+			vsched.Await(func() bool { return up })
+			sock.Emit("e", args...)
+			sock.Emit("e", args...)
+			sock.Volatile().Emit("e", args...)
+			vrig.Settle(time.Second)
+			frames = func() []string {
+				fr, _ := postsToFrames(link.Posts)
+				var out []string
+				for _, f := range fr {
+					if !f.binary && len(f.data) > 0 && f.data[0] == '2' {
+						out = append(out, string(f.data))
+					}
+				}
+				return out
+			}
+		}
+		return func() vx.Result {
+			var r vx.Result
+			fr := frames()
+			after := fmt.Sprintf("%#v", args)
+			r.Outcome = fmt.Sprint(fr)
+			side := "client"
+			if server {
+				side = "server"
+			}
+			if after != before {
+				r.Violate(side+" emit: the argument slice handed to Emit(name, args...) was changed", "before %s, after %s; frames %q", before, after, fr)
+			}
+			want := `2["e",1,"x",{"k":2}]`
+			for i, f := range fr {
+				// (the third emission carries an ack id on the server side: compare from the payload on)
+				if j := strings.IndexByte(f, '['); j < 0 || f[j:] != want[1:] {
+					r.Violate(side+" emit: emitting the same argument slice again puts different frames on the wire", "emission %d: frame %q, expected payload %s; all frames %q", i+1, f, want[1:], fr)
+				}
+			}
+			if len(fr) != 3 {
+				r.Violate(side+" emit: emitting the same argument slice again puts different frames on the wire", "%d event frames for 3 emissions: %q", len(fr), fr)
+			}
+			return r
+		}
+	}
+	return sc
+}
+
 // ---- (b) application level: handler-entry order
 
 func orderKey(side string, sites []string) string {
@@ -566,6 +650,8 @@ func scenarios(tier string) []*vx.Scenario {
 		clientWireConnecting("client-wire-connecting/2x2", [][]int{{0, 1}, {1, 0}}, bw-2),
 		clientWireFlushRace("client-wire-connecting/emitter-meets-the-CONNECT-reply/1x3", [][]int{{0, 1, 0}}, bw-1),
 		clientWireFlushRace("client-wire-connecting/emitter-meets-the-CONNECT-reply/2x2", [][]int{{0, 1}, {1, 0}}, bw-2),
+		spreadSlice("spread-argument-slice-emitted-twice/client", false),
+		spreadSlice("spread-argument-slice-emitted-twice/server", true),
 		serverApp("server-app/2-separate-frames", 2, false, ba),
 		serverApp("server-app/3-one-payload", 3, true, ba),
 		clientApp("client-app/2", 2, ba),
